@@ -25,7 +25,7 @@ BAD_KEYS = {
     "identifier": ["1x", "a-b", "a.b", "+", "*"],
     "ipaddr-or-hostname": ["1x", "300.1.1.1", "a/b", "x!", "+", "*"],
 }
-SECTION_NAMES = ["n1", "n2", "N3", "alpha", "Beta", "Stra\u00dfe", "\u039f\u0394\u039f\u03a3", "/Dir/", "a>b"]
+SECTION_NAMES = ["n1", "n2", "N3", "alpha", "Beta", "Stra\u00dfe", "\u039f\u0394\u039f\u03a3", "/Dir/", "a>b", "Z\u00fcrich", "\u00c5rhus"]
 
 GOOD = {
     "string": ["v", "two words", "x=1", "(p)", "<q>", "# not a comment", "é", "col1\tcol2", "a \t b",
